@@ -1604,6 +1604,42 @@ func (t *tr2) saveKinds() map[string]string {
 }
 
 func (t *tr2) loop(list string, elemName, elemKind string, body []ast.Stmt, rest []ast.Stmt, fall string, inLoop bool) string {
+	if hasReturn(body) && !t.partial && !inLoop && len(assignedOuter(body)) == 0 {
+		// a search loop of a total function: every statement of the body is `if c { return e }` and nothing is
+		// assigned — the first hit is the result, otherwise the function goes on
+		var arms []string
+		saved := t.saveKinds()
+		t.kinds[elemName] = elemKind
+		okShape := true
+		for _, st := range body {
+			ifs, ok := st.(*ast.IfStmt)
+			if !ok || ifs.Init != nil || ifs.Else != nil || len(ifs.Body.List) != 1 {
+				okShape = false
+				break
+			}
+			ret, ok := ifs.Body.List[0].(*ast.ReturnStmt)
+			if !ok || len(ret.Results) != 1 {
+				okShape = false
+				break
+			}
+			c, kc := t.expr(ifs.Cond)
+			v, _ := t.expr(ret.Results[0])
+			if kc != "bool" {
+				okShape = false
+				break
+			}
+			arms = append(arms, "(if "+c+" then some "+v+" else none)")
+		}
+		t.kinds = saved
+		if okShape && len(arms) > 0 {
+			// (Option.or / Option.getD rather than `match`: lemmas about the shape can then be stated once)
+			step := "hit__"
+			for _, a := range arms {
+				step = "(" + step + ".or " + a + ")"
+			}
+			return "(((" + list + ").foldl (fun hit__ " + leanName(elemName) + " => " + step + ") none).getD " + t.block(rest, fall, inLoop) + ")"
+		}
+	}
 	if hasReturn(body) {
 		// a loop that may leave the function with an error: a fold in the Option monad (`none` = the error)
 		if !t.partial {
